@@ -103,6 +103,10 @@ pub fn run_socket_part(ev: &mut Evidence, seed: u64, runs: usize, scratch: &std:
     let rt = tokio::runtime::Builder::new_multi_thread().worker_threads(4).enable_all().build().expect("rt");
     let mut rng = Rng::new(seed ^ 0x10c6);
     for run in 0..runs {
+        if !ev.violations.is_empty() || ev.counter("socket_contenders_inconclusive") >= 8 {
+            ev.count("socket_runs_skipped_after_verdict_or_watchdogs", 1);
+            continue;
+        }
         let n = rng.range(4, 8);
         let keys: Vec<String> = (0..2).map(|k| format!("c06s{run}/lock{k}")).collect();
         let clock = Arc::new(AtomicU64::new(1));
